@@ -324,7 +324,7 @@ func (r *runner) worker() {
 				// re-run to restore solver state is unnecessary: the path's PC is still asserted
 				if m := ex.niceModel(ex.b.True, nil); m != nil {
 					vm = &valModel{item: t.item, model: m, reach: res.Reached, trail: res.Trail}
-				} else if rr, m := ex.sol.Check(nil, ex.wantVars()); rr == "sat" {
+				} else if rr, m := ex.check(nil, ex.wantVars()); rr == "sat" {
 					vm = &valModel{item: t.item, model: m, reach: res.Reached, trail: res.Trail}
 				}
 			}
